@@ -574,10 +574,11 @@ class Dataset:
         if not isinstance(other, Dataset):
             return NotImplemented
 
-        self_str_rankings: List[str] = [str(ranking).strip().replace(" ", "") for ranking in self.rankings]
-        other_str_rankings: List[str] = [str(ranking).strip().replace(" ", "") for ranking in other.rankings]
+        # a ranking is compared as the sequence of its buckets, a bucket as a set (no dependence on iteration order)
+        self_rankings = Counter(tuple(frozenset(bucket) for bucket in ranking) for ranking in self.rankings)
+        other_rankings = Counter(tuple(frozenset(bucket) for bucket in ranking) for ranking in other.rankings)
 
-        return Counter(self_str_rankings) == Counter(other_str_rankings)
+        return self_rankings == other_rankings
 
 
 class DatasetSelector:
